@@ -1066,6 +1066,12 @@ class SymEngine:
             t = self.ev(ev.node, f, st)
             # conditions of `assert` statements refine the facts but are kept apart from the guards: a rule that
             # asks "under exactly which conditions does this happen" is not disturbed by a declared invariant
+            if is_c(t):
+                # a test on a constant (a flag bound by an inlined call) is decided here and tells nothing
+                if bool(t[1]) != bool(ev.a):
+                    return False
+                st.events.append(ev)
+                return True
             (st.alog if ev.b == "assert" else st.log).append((t, ev.a, ev.node))
             if not self.assume(t, ev.a, st.facts):
                 return False
